@@ -31,6 +31,21 @@ Lemma gate_shape_matches_source :
   GenLimits.gate_analyses_after_branch = true.
 Proof. repeat split; reflexivity. Qed.
 
+(* the derived bounds are computed in u64 with the saturating operations the model uses (and
+   the one unchecked `+`), the liveness fold subtracts two u32 range ends *)
+Lemma derived_bound_arithmetic_matches_source :
+  GenLimits.summary_event_bound_types = summary_bound_types_modelled /\
+  GenLimits.summary_event_bound_ops = summary_bound_ops_modelled /\
+  GenLimits.liveness_event_bound_types = liveness_bound_types_modelled /\
+  GenLimits.liveness_event_bound_ops = liveness_bound_ops_modelled.
+Proof. repeat split; reflexivity. Qed.
+
+(* run_with_analysis installs the facts and the plan option without looking at the plan *)
+Lemma run_with_analysis_matches_source :
+  GenLimits.run_with_analysis_stmts = run_with_analysis_modelled /\
+  GenLimits.run_with_analysis_branches = 0.
+Proof. split; reflexivity. Qed.
+
 (* the plan is only stored, cleared, handed out by the accessor and consulted by the two prune
    predicates *)
 Lemma runtime_plan_users_match_source :
